@@ -170,7 +170,8 @@ Fixpoint sub_get (k : bytes) (m : list (bytes * bytes)) : option bytes :=
 
 (* ---- add_or_update ---------------------------------------------------------------------------
 
-   Returns the new cache and None (refused / unsupported type) or Some (stored record, is_new).
+   Returns the new cache and None (refused / unsupported type) or Some (stored record, is_new);
+   is_new also for a revived record (see update_first).
    `now` is current_time_millis() of the iteration = created of the incoming record. *)
 
 Definition alias_of (r : rr) : bytes := match r_data r with RPtr a => a | _ => [] end.
@@ -180,14 +181,16 @@ Definition flush_one (r : rr) (ifx now : N) (e : entry) : entry :=
      && (if flush_is_addr_type (r_type r) then flush_same_intf (e_if e) ifx else true)
   then set_expires e (flush_new_expire now) else e.
 
-(* find the first matching record and reset its TTL *)
-Fixpoint update_first (b : bucket) (r : rr) (ifx now : N) : option (bucket * entry) :=
+(* find the first matching record and reset its TTL; `revived`: it was on its way out
+   (TTL <= 1, a goodbye) and is announced again with TTL > 1 - reported like a new record *)
+Fixpoint update_first (b : bucket) (r : rr) (ifx now : N) : option (bucket * (entry * bool)) :=
   match b with
   | [] => None
   | e :: t =>
-    if entry_matches e r ifx then let e' := reset_ttl e r now in Some (e' :: t, e')
+    if entry_matches e r ifx
+    then let e' := reset_ttl e r now in Some (e' :: t, (e', revived_guard (e_ttl e) (r_ttl r)))
     else match update_first t r ifx now with
-         | Some (t', e') => Some (e :: t', e')
+         | Some (t', x) => Some (e :: t', x)
          | None => None
          end
   end.
@@ -220,7 +223,7 @@ Definition add_or_update (c : cache) (now ifx : N) (r : rr) (for_us : bool)
     | _ =>
       let b1 := if r_flush r then map (flush_one r ifx now) b else b in
       match update_first b1 r ifx now with
-      | Some (b2, e') => (set_map c1 k (bm_set key b2 m), Some (e', false))
+      | Some (b2, (e', revived)) => (set_map c1 k (bm_set key b2 m), Some (e', revived))
       | None => let e := new_entry r now ifx in
                 (set_map c1 k (bm_set key (e :: b1) m), Some (e, true))
       end
@@ -236,44 +239,45 @@ Definition sweep (now : N) (m : bmap) : bmap :=
   filter (fun kb => match snd kb with [] => false | _ => true end)
          (map (fun kb => (fst kb, live_only now (snd kb))) m).
 
-(* the loop over the PTR records of one ty_domain: SRV/TXT of the instances they point to *)
-Fixpoint evict_instances (now : N) (ty : bytes) (ptrs : bucket) (srv txt : bmap)
-    : bmap * bmap * list (bytes * bytes) :=
+(* the loop over the PTR records of one ty_domain: an instance whose SRV bucket was emptied by
+   the preceding SRV pass (srv_expired) is reported; its TXT records are evicted *)
+Fixpoint evict_instances (now : N) (ty : bytes) (ptrs : bucket) (srv_expired : list bytes) (txt : bmap)
+    : bmap * list (bytes * bytes) :=
   match ptrs with
-  | [] => (srv, txt, [])
+  | [] => (txt, [])
   | p :: rest =>
     let inst := alias_of (e_rr p) in
-    let '(srv1, ex1) :=
-      match bm_get inst srv with
-      | Some sb => match live_only now sb with
-                   | [] => (bm_remove inst srv, [(ty, inst)])
-                   | sb' => (bm_set inst sb' srv, [])
-                   end
-      | None => (srv, [])
-      end in
+    let ex1 := if mem inst srv_expired then [(ty, inst)] else [] in
     let txt1 := match bm_get inst txt with
                 | Some tb => bm_set inst (live_only now tb) txt
                 | None => txt
                 end in
-    let '(srv2, txt2, ex2) := evict_instances now ty rest srv1 txt1 in
-    (srv2, txt2, ex1 ++ ex2)
+    let '(txt2, ex2) := evict_instances now ty rest srv_expired txt1 in
+    (txt2, ex1 ++ ex2)
   end.
 
-Fixpoint evict_types (now : N) (ptr : bmap) (srv txt : bmap) : bmap * bmap * bmap * list (bytes * bytes) :=
+Fixpoint evict_types (now : N) (ptr : bmap) (srv_expired : list bytes) (txt : bmap)
+    : bmap * bmap * list (bytes * bytes) :=
   match ptr with
-  | [] => ([], srv, txt, [])
+  | [] => ([], txt, [])
   | (ty, ptrs) :: rest =>
-    let '(srv1, txt1, ex1) := evict_instances now ty ptrs srv txt in
+    let '(txt1, ex1) := evict_instances now ty ptrs srv_expired txt in
     let gone := map (fun p => (ty, alias_of (e_rr p))) (filter (fun p => is_expired p now) ptrs) in
-    let '(ptr2, srv2, txt2, ex2) := evict_types now rest srv1 txt1 in
-    ((ty, live_only now ptrs) :: ptr2, srv2, txt2, ex1 ++ gone ++ ex2)
+    let '(ptr2, txt2, ex2) := evict_types now rest srv_expired txt1 in
+    ((ty, live_only now ptrs) :: ptr2, txt2, ex1 ++ gone ++ ex2)
   end.
+
+(* the instances whose SRV bucket holds no unexpired record (srv.retain(..) of the SRV pass) *)
+Definition srv_expired_of (now : N) (srv : bmap) : list bytes :=
+  map fst (filter (fun kb => match live_only now (snd kb) with [] => true | _ => false end) srv).
 
 (* evict_expired_services: the new cache and the (ty_domain, instance) pairs reported, in the
-   order of discovery (Rust collects them in a HashMap of HashSets: duplicates collapse) *)
+   order of discovery (Rust collects them in a HashMap of HashSets: duplicates collapse).
+   SRV records are evicted first, everywhere; then every PTR name pointing to an instance left
+   without SRV records reports it, as does every expired PTR; TXT and NSEC are swept. *)
 Definition evict_services (c : cache) (now : N) : cache * list (bytes * bytes) :=
-  let '(ptr1, srv1, txt1, ex) := evict_types now (c_ptr c) (c_srv c) (c_txt c) in
-  (mkCache ptr1 (sweep now srv1) (sweep now txt1) (c_addr c) (sweep now (c_nsec c)) (c_sub c), ex).
+  let '(ptr1, txt1, ex) := evict_types now (c_ptr c) (srv_expired_of now (c_srv c)) (c_txt c) in
+  (mkCache ptr1 (sweep now (c_srv c)) (sweep now txt1) (c_addr c) (sweep now (c_nsec c)) (c_sub c), ex).
 
 (* evict_expired_addr: the owner names (as in the records) of the evicted addresses *)
 Definition evict_addr (c : cache) (now : N) : cache * list bytes :=
@@ -293,10 +297,10 @@ Definition txt_text (e : entry) : bytes := rr_text (e_rr e).
 
 Definition get_addr (c : cache) (host : bytes) : option bucket := bm_get (lower host) (c_addr c).
 
-(* get_instances_on_host: instances whose FIRST SRV record names exactly `host` (case-sensitive) *)
+(* get_instances_on_host: instances whose FIRST SRV record names `host`, letter case ignored *)
 Definition get_instances_on_host (c : cache) (host : bytes) : list bytes :=
   flat_map (fun kb => match snd kb with
-                      | e :: _ => if beq (srv_host e) host then [fst kb] else []
+                      | e :: _ => if beq (lower (srv_host e)) (lower host) then [fst kb] else []
                       | [] => []
                       end) (c_srv c).
 
@@ -305,13 +309,13 @@ Definition get_instances_on_host (c : cache) (host : bytes) : list bytes :=
 Definition sooner_all (at_ : option N) (b : bucket) : bucket :=
   match at_ with Some x => map (fun e => expire_sooner e x) b | None => b end.
 
-(* addresses are looked up under srv.host() AS IS (not lower-cased) *)
+(* addresses are looked up under the lower-cased srv.host() *)
 Fixpoint verify_addrs (at_ : option N) (srvs : bucket) (addr : bmap) : bmap :=
   match srvs with
   | [] => addr
   | s :: rest =>
-    let addr1 := match bm_get (srv_host s) addr with
-                 | Some ab => bm_set (srv_host s) (sooner_all at_ ab) addr
+    let addr1 := match bm_get (lower (srv_host s)) addr with
+                 | Some ab => bm_set (lower (srv_host s)) (sooner_all at_ ab) addr
                  | None => addr
                  end in
     verify_addrs at_ rest addr1
